@@ -349,6 +349,12 @@ def _pipeline_registry(chk):
         class Point:
             def __init__(self, idx, mu):
                 self.idx, self.mu = idx, mu
+
+            # as the real LibrationPoint prints itself (mu to 7 significant digits): two distinct points may print alike,
+            # compare equal as strings and still be different systems
+            def __str__(self):
+                return f"L{self.idx}Point(mu={self.mu:.6e})"
+            __repr__ = __str__
         built = []
 
         class Pipe:
@@ -358,8 +364,8 @@ def _pipeline_registry(chk):
         saved = sh.HamiltonianPipeline if hasattr(sh, "HamiltonianPipeline") else None
         svc = real_self(sh._HamiltonianPipelineService, _pipelines={}, _conversion=None)
         svc._create_pipeline = lambda point, degree: Pipe(point, degree)
-        em, other = Point(1, 0.0121505856), Point(1, 0.3)
-        for point, degree in ((em, 4), (other, 4), (em, 4), (other, 6), (em, 6)):
+        em, other, near = Point(1, 0.0121505856), Point(1, 0.3), Point(1, 0.01215058561)
+        for point, degree in ((em, 4), (other, 4), (em, 4), (other, 6), (em, 6), (near, 4), (near, 6), (em, 4)):
             p = sh._HamiltonianPipelineService.get(svc, point, degree)
             if p.point is not point or p.degree != degree:
                 raise Refuted(f"pipeline registry: get(point with mu = {point.mu}, degree {degree}) returns the pipeline of the "
